@@ -28,6 +28,11 @@ RULES = {
              "and out-of-range indexes then behave as the built-in's)",
     "R16.7": "every method an owning collection resolves reaches the store only through the "
              "ownership primitives / hooks (shared with C04: R03.3, R03.5)",
+    "R16.8": "operators a wrapper defines itself compute the built-in's result: forward op is "
+             "self._data <op> other, reflected op is other <op> self._data; only commutative "
+             "operators may alias their reflected form",
+    "R16.9": "a caller-supplied iterable is materialised (list(v)) before ownership hooks that can "
+             "re-enter the collection run over it",
     "R16.5": "the symbolic-expression mapping stores into a SortedDict mutated only by "
              "__setitem__/__delitem__",
 }
@@ -62,6 +67,8 @@ def run(chk: Check) -> None:
     _list_hooks(chk, types)
     _symexpr_dict(chk, abc)
     _index_unchanged(chk)
+    _operators(chk)
+    _materialised(chk, types)
     own = ownership(repo)
     k = 0
     for prop, rule, construct, ok, loc, msg, facts in own.obs:
@@ -470,3 +477,73 @@ def _index_unchanged(chk: Check) -> None:
                        "%s applies %s to the wrapped list instead of the caller's index"
                        % (f.qualname, [unparse(u.slice) for u in uses]), 2)
     chk.floor("R16.6", "ListWrapper item operations", n, 4)
+
+
+_OPS = {"__or__": ast.BitOr, "__and__": ast.BitAnd, "__sub__": ast.Sub, "__xor__": ast.BitXor}
+_COMMUTATIVE = {"__or__", "__and__", "__xor__"}
+
+
+def _operators(chk: Check) -> None:
+    repo = chk.repo
+    sw = repo.cls("SetWrapper")
+    n = 0
+    for c in [sw] + repo.subclasses(sw):
+        for nm, op in _OPS.items():
+            for refl in (False, True):
+                name = ("__r" + nm[2:]) if refl else nm
+                f = c.methods.get(name)
+                alias = c.class_assigns.get(name)
+                if alias is not None and isinstance(alias, ast.Name):
+                    n += 1
+                    ok = alias.id == nm and nm in _COMMUTATIVE
+                    chk.ob("R16.8", "%s.%s:alias(%s)" % (c.qualname, name, alias.id), ok, c.loc(),
+                           "%s.%s is an alias of %s: %s is not commutative, so 'plain - wrapper' (and the "
+                           "mixins built on it, e.g. &= with another wrapper) compute the reversed "
+                           "difference" % (c.qualname, name, alias.id, nm), 2)
+                if f is None:
+                    continue
+                n += 1
+                chk.saw(f)
+                o = f.param_names()[1] if len(f.param_names()) > 1 else "other"
+                rets = [r for r in walk_no_nested(f.node) if isinstance(r, ast.Return) and r.value is not None]
+                ok = len(rets) == 1 and isinstance(rets[0].value, ast.BinOp) and isinstance(rets[0].value.op, op)
+                if ok:
+                    l, r = attr_path(rets[0].value.left), attr_path(rets[0].value.right)
+                    want = ((o,), (f.self_name, "_data")) if refl else ((f.self_name, "_data"), (o,))
+                    ok = (l, r) == want or (nm in _COMMUTATIVE and (r, l) == want)
+                chk.ob("R16.8", "%s.%s:body" % (c.qualname, name), ok, f.loc(),
+                       "%s.%s must return %s; it returns %s" % (
+                           c.qualname, name,
+                           ("other %s self._data" if refl else "self._data %s other") % op.__name__,
+                           unparse(rets[0].value) if rets else "nothing"), 2)
+    chk.extra["set_operators_defined"] = n
+
+
+def _materialised(chk: Check, types: TypeEnv) -> None:
+    repo = chk.repo
+    lw = repo.cls("ListWrapper")
+    for c in [lw] + repo.subclasses(lw):
+        for f in c.methods.values():
+            if f.name in ("__init__", "_add", "_remove"):
+                continue
+            me = f.self_name
+            cfg = None
+            for lp in walk_no_nested(f.node):
+                if not (isinstance(lp, ast.For) and isinstance(lp.iter, ast.Name)):
+                    continue
+                hooks = [x for x in ast.walk(lp) if isinstance(x, ast.Call) and attr_path(x.func) == (me, "_add")]
+                if not hooks:
+                    continue
+                chk.saw(f)
+                it = lp.iter.id
+                binds = [a for a in walk_no_nested(f.node) if isinstance(a, ast.Assign)
+                         and any(isinstance(t, ast.Name) and t.id == it for t in a.targets)]
+                fresh = bool(binds) and all(
+                    isinstance(b.value, (ast.List, ast.Tuple)) or
+                    (isinstance(b.value, ast.Call) and attr_path(b.value.func) in (("list",), ("tuple",)))
+                    for b in binds)
+                chk.ob("R16.9", "%s:iterates-a-copy(%s)" % (f.qualname, it), fresh, f.loc(lp),
+                       "%s runs the re-entrant ownership hook over '%s', which is not always a fresh "
+                       "list/tuple copy of the caller's iterable (%s): assigning another owner's live "
+                       "list moves modules out of it while it is being iterated, skipping every other one"
+                       % (f.qualname, it, "; ".join(unparse(b.value)[:40] for b in binds) or "unbound"), 2)
